@@ -72,6 +72,25 @@ static void gen_shape(const char *shape, size_t n, long param, uint64_t *xs) {
         return;
     }
     if (0) {
+    } else if (!strcmp(shape, "halfstep")) {
+        /* neighbours exactly 2^63 (param 0), 2^63 - 1 (1), 2^63 + 1 (2), 2^62 (3) apart: the extreme
+         * differences of the delta codecs (the zig-zag image of INT64_MIN is the all-ones word) */
+        static const uint64_t D[4] = {1ULL << 63, (1ULL << 63) - 1, (1ULL << 63) + 1, 1ULL << 62};
+        uint64_t d = D[param & 3];
+        uint64_t base = (param & 4) ? 5 : 0;
+        for (size_t i = 0; i < n; i++) {
+            xs[i] = base + (uint64_t)i;        /* ascending by one ... */
+        }
+        for (size_t i = n / 2; i < n; i++) {
+            xs[i] += d;                         /* ... with one big step in the middle */
+        }
+        if (param & 8) {                        /* descending variant */
+            for (size_t i = 0; i < n / 2; i++) {
+                uint64_t t = xs[i];
+                xs[i] = xs[n - 1 - i];
+                xs[n - 1 - i] = t;
+            }
+        }
     } else if (!strcmp(shape, "zblk") || !strcmp(shape, "flatblk")) {
         /* 128-blocks selected by the bits of param (block b -> bit b%8) are all
          * zero (zblk) or repeat the previous value (flatblk): zero-width blocks */
@@ -1255,6 +1274,10 @@ static void scenario(int codec, long param, size_t n, const char *shape,
         if (what & 8) {
             run_accessors(codec, &src, o.written, n);
             run_analyzers(codec, xs, x32, n);
+            if (!(what & 1) && o.have_meta) {
+                /* "the reported count equals the number of elements decoding yields": one full decode */
+                run_decode(codec, param, full_readers(codec, 0), &src, o.written, o.bits, n, n);
+            }
         }
         gb_free(&src);
     }
